@@ -45,6 +45,7 @@ inductive Op
   | rename (p q : Bytes)
   | appendLine (p l : Bytes)
   | poll
+  | patternPoll      -- the pattern pollers run, the streams have not woken yet
 deriving Repr
 
 def kindOf (t : T) (p : Bytes) : Option Kind := (t.nodes.find? (·.1 = p)).map (·.2)
@@ -93,6 +94,7 @@ def step (cfg : Cfg) (t : T) : Op → T
       else { t with delivered := t.delivered ++ [(p, l)] }
     else t
   | .poll => poll cfg t
+  | .patternPoll => cfg.patterns.foldl (globOne cfg) t
 
 def run (cfg : Cfg) (t : T) (ops : List Op) : T := ops.foldl (step cfg) t
 
